@@ -43,13 +43,13 @@ Feed(o, es, i) ==
                    [] e.ev = "mark" -> O!ObsMark(o, Name(e.b))
                    [] e.ev = "probe" -> O!ObsProbe(o, Name(e.b), e.r)
                    [] e.ev = "tick" -> O!ObsTick(o, 1)
-                   [] e.ev = "add" -> O!ObsAdmin(o, "add", Name(e.b), Weight[e.b], "", 201, Items(order, flag), Items(order', flag'))
-                   [] e.ev = "remove" -> O!ObsAdmin(o, "remove", Name(e.b), 0, "", 200, Items(order, flag), Items(order', flag'))
-                   [] e.ev = "strategy" -> O!ObsAdmin(o, "strategy", "", 0, e.s, 200, Items(order, flag), Items(order', flag'))
-                   [] e.ev = "add_dup" -> O!ObsAdmin(o, "add", Name(e.b), Weight[e.b], "", 400, Items(order, flag), Items(order', flag'))
-                   [] e.ev = "add_badurl" -> O!ObsAdmin(o, "add", Name(e.b), 1, "", 400, Items(order, flag), Items(order', flag'))
-                   [] e.ev = "strategy_unknown" -> O!ObsAdmin(o, "strategy", "", 0, "fastest", 400, Items(order, flag), Items(order', flag'))
-                   [] e.ev = "remove_absent" -> O!ObsAdmin(o, "remove", Name(e.b), 0, "", 200, Items(order, flag), Items(order', flag'))
+                   [] e.ev = "add" -> O!ObsAdmin(o, "add", Name(e.b), Weight[e.b], "", 201, Items(order, flag), Items(order', flag'), FALSE)
+                   [] e.ev = "remove" -> O!ObsAdmin(o, "remove", Name(e.b), 0, "", 200, Items(order, flag), Items(order', flag'), FALSE)
+                   [] e.ev = "strategy" -> O!ObsAdmin(o, "strategy", "", 0, e.s, 200, Items(order, flag), Items(order', flag'), FALSE)
+                   [] e.ev = "add_dup" -> O!ObsAdmin(o, "add", Name(e.b), Weight[e.b], "", 400, Items(order, flag), Items(order', flag'), FALSE)
+                   [] e.ev = "add_badurl" -> O!ObsAdmin(o, "add", Name(e.b), 1, "", 400, Items(order, flag), Items(order', flag'), TRUE)
+                   [] e.ev = "strategy_unknown" -> O!ObsAdmin(o, "strategy", "", 0, "fastest", 400, Items(order, flag), Items(order', flag'), FALSE)
+                   [] e.ev = "remove_absent" -> O!ObsAdmin(o, "remove", Name(e.b), 0, "", 200, Items(order, flag), Items(order', flag'), FALSE)
                    [] OTHER -> O!Q(o)
        IN LET rest == Feed(o1, es, i + 1) IN [rest EXCEPT !.viol = o1.viol \o rest.viol]
 
